@@ -36,7 +36,7 @@ ASSUMPTIONS = [
     "the two pad bytes of the undocumented AT5 outer header are not 'covered bytes' and are not corrupted",
     "the exhaustive 1..2-byte comparison of calculate() is a plain function comparison, not simulation; the 3-byte enumeration and the induction on length of the property text are not reproduced",
 ]
-PROBES = ["c06.single_bit", "c06.double_bit", "c06.burst", "c06.check_bytes_only", "c06.after_intact_original", "c06.special_register_frame", "c06.intact_special_register", "c06.in_prefix", "c06.in_length", "c06.in_crc", "c06.in_payload", "c06.waited_for_bytes", "c06.function_audit"]
+PROBES = ["c06.single_bit", "c06.double_bit", "c06.burst", "c06.check_bytes_only", "c06.after_intact_original", "c06.special_register_frame", "c06.intact_special_register", "c06.prefix_valued_address", "c06.in_prefix", "c06.in_length", "c06.in_crc", "c06.in_payload", "c06.waited_for_bytes", "c06.function_audit"]
 EXHAUSTIVE = True
 TRUSTED_BASE = ["ref/crc.py (bitwise CRC-16/MODBUS)", "ref/wire4.py, ref/wire5.py (framing)"]
 
@@ -135,7 +135,13 @@ def _special_frames(gen: int):
                 break
         if len(found) == 2:
             break
-    _special_cache[gen] = [("reg%s" % k.hex(), v) for k, v in sorted(found.items())]
+    out = [("reg%s" % k.hex(), v) for k, v in sorted(found.items())]
+    # covered bytes that look like the frame prefix: frames for another client (the console forwards them) whose
+    # destination / source address is 0x55 or 0xAA - the span the CRC covers still starts at the address byte
+    pay = bytes(rng.randrange(256) for _ in range(12))
+    for (to, frm) in ((0x55, w.ADDR_CONSOLE), (0xAA, w.ADDR_CONSOLE), (0x55, 0x55), (w.ADDR_CLIENT, 0xAA)):
+        out.append(("addr%02x%02x" % (to, frm), w.frame(to, frm, 0x31, types[0], pay)))
+    _special_cache[gen] = out
     return _special_cache[gen]
 
 
@@ -297,6 +303,8 @@ def execute(sc: dict) -> dict:
     probes["c06." + {"single": "single_bit", "double": "double_bit", "burst": "burst", "checkbytes": "check_bytes_only", "intact": "intact_special_register"}.get(pattern, "single_bit")] = 1
     if str(info.get("kind", "")).startswith("unknown:reg"):
         probes["c06.special_register_frame"] = 1
+    if str(info.get("kind", "")).startswith("unknown:addr"):
+        probes["c06.prefix_valued_address"] = 1
     hl = 8 if gen == 4 else 20
     pre = 2 if gen == 4 else 14
     for b in info.get("bits", []):
